@@ -737,6 +737,57 @@ func worker(sh *ev.Shard) {
 			}
 		}
 	}
+	// many occurrences: one tag occurring 7 / 8 / 9 / 16 / 17 / 33 / 65 times (as separate fields) between and around
+	// single occurrences of the other tags, top level and inside a nested message: whatever space an implementation sets
+	// aside per tag, the occurrence behind it must not land in a neighbour's
+	{
+		occ := func(tag, i int, shape int) []byte {
+			switch shape {
+			case 0:
+				return cat(key(tag, 0), refwire.AppendVarint(nil, uint64(1000+i)))
+			case 1:
+				return refwire.AppendBytes(key(tag, 2), []byte(fmt.Sprintf("name-%d", i)))
+			default:
+				return refwire.AppendFixed32(key(tag, 5), uint32(0x01010101*uint32(i%200)))
+			}
+		}
+		for _, many := range []int{1, 2, 3} { // the tag that occurs many times
+			for _, n := range []int{7, 8, 9, 16, 17, 33, 65} {
+				for shape := 0; shape < 3; shape++ {
+					if !mine() {
+						continue
+					}
+					var top []byte
+					for t := 1; t <= 3; t++ {
+						if t != many {
+							top = append(top, occ(t, 0, (shape+t)%3)...) // the other tags once, in front ...
+						}
+					}
+					for i := 0; i < n; i++ {
+						top = append(top, occ(many, i, shape)...)
+					}
+					var tail []byte
+					for t := 1; t <= 3; t++ {
+						if t != many {
+							tail = append(tail, occ(t, 1, (shape+t)%3)...) // ... and once more behind
+						}
+					}
+					inputs := [][]byte{top, cat(top, tail), refwire.AppendBytes(key(2, 2), cat(top, tail)), cat(refwire.AppendBytes(key(3, 2), top), refwire.AppendBytes(key(3, 2), tail))}
+					for _, b := range inputs {
+						fields, ok := lazyref.RefFields(b)
+						for _, di := range arbDefs {
+							sh.Cur("many-occurrences", fmt.Sprintf("tag=%d n=%d shape=%d def=%s", many, n, shape, defString(defs[di])))
+							c.runPair(append([]byte{}, b...), defs[di], getDecs(di), ok, fields)
+							arb++
+							if ok {
+								arbWF++
+							}
+						}
+					}
+				}
+			}
+		}
+	}
 	sh.Count("arbitrary_byte_cases", arb)
 	sh.Count("arbitrary_cases_wellformed_full_oracle", arbWF)
 	sh.Count("evals", c.calls)
@@ -793,7 +844,7 @@ func main() {
 	r := ev.Start("C13", "exploration")
 	nilReceivers(r)
 	r.RunShards(32, runtime.NumCPU(), 8<<30)
-	r.Rule("(every second long-lived Decoder object carries WithMaxBufferSize(1): results trimmed on Close are recycled from message to message) deterministic product: (plus: runs of 0..11 continuation bytes 0x80/0xFF, with and without a terminating byte, as varint value, packed payload, nested payload and key, at the end of the buffer and followed by a field, under 12 definitions) message family = 3 tags x ~24 field shapes each (absent; varint x1/x2 incl. 32-bit overflow and sign-extended negatives; fixed32/64 x1/x2; LEN empty / string / repeated strings incl. empty / packed varint runs incl. empty run / packed fixed / nested messages to depth 2 (3 thorough) incl. the EMPTY nested message and repeated nested), assembled ascending and interleaved; definition family = 4 tags x 9 options (absent, flat, negative, 3 nested sub-definitions, nested+negative) = 6561 definitions; explored as (all messages x core definitions) U (core messages x all definitions) [quick: every 16th / 12th combination, thorough: all]; x {safe, fast} x {Decoder.Decode, Decode()} x 26 typed accessors via DecodeResult and via FieldData, GetFieldData, FieldData(path), NestedResult(s), Range. Plus all byte strings <= 4 (5) over a 16-symbol alphabet x 12 definitions (full oracle when the reference accepts them, otherwise no-panic). evaluations = lazyref.Accessor calls; distinct_nontrivial = lazyref.Accessor evaluations on a PRESENT field (reference produced a value or a typed error).")
+	r.Rule("(every second long-lived Decoder object carries WithMaxBufferSize(1): results trimmed on Close are recycled from message to message) deterministic product: (plus: one tag occurring 7/8/9/16/17/33/65 times around single occurrences of the other tags, top level and nested) (plus: runs of 0..11 continuation bytes 0x80/0xFF, with and without a terminating byte, as varint value, packed payload, nested payload and key, at the end of the buffer and followed by a field, under 12 definitions) message family = 3 tags x ~24 field shapes each (absent; varint x1/x2 incl. 32-bit overflow and sign-extended negatives; fixed32/64 x1/x2; LEN empty / string / repeated strings incl. empty / packed varint runs incl. empty run / packed fixed / nested messages to depth 2 (3 thorough) incl. the EMPTY nested message and repeated nested), assembled ascending and interleaved; definition family = 4 tags x 9 options (absent, flat, negative, 3 nested sub-definitions, nested+negative) = 6561 definitions; explored as (all messages x core definitions) U (core messages x all definitions) [quick: every 16th / 12th combination, thorough: all]; x {safe, fast} x {Decoder.Decode, Decode()} x 26 typed accessors via DecodeResult and via FieldData, GetFieldData, FieldData(path), NestedResult(s), Range. Plus all byte strings <= 4 (5) over a 16-symbol alphabet x 12 definitions (full oracle when the reference accepts them, otherwise no-panic). evaluations = lazyref.Accessor calls; distinct_nontrivial = lazyref.Accessor evaluations on a PRESENT field (reference produced a value or a typed error).")
 	r.Assume("each requested field number uses one wire type throughout (property's own precondition); messages mixing wire types are only in the no-panic set")
 	r.Assume("where the statement is silent (e.g. reading a string as packed varints that happens to parse) the reference's own expansion is used: parse success => values must match, parse failure => any error")
 	r.Finish()
